@@ -1,5 +1,6 @@
 import IV.Lemmas.DrOrder
 import IV.Lemmas.Subgraphs
+import IV.Lemmas.Incremental
 import IV.Props.C01
 /-!
 C04 — evaluation results do not depend on scheduling.
@@ -67,7 +68,7 @@ structure GraphOk (seed : Inst) (g : Graph) : Prop where
   covers : ∀ c ds, (c, ds) ∈ g → ∀ d ∈ w.deps c, d ∈ ds ∧ d ≠ c
   ignoreStable : ∀ c ∈ g.keys, ∀ x ∈ w.ignore c, x ∉ g.keys ∨ present seed x = true
 
-theorem mem_keys_iff (g : Graph) (c : Comp) : c ∈ g.keys ↔ ∃ ds, (c, ds) ∈ g := by
+theorem c04_mem_keys_iff (g : Graph) (c : Comp) : c ∈ g.keys ↔ ∃ ds, (c, ds) ∈ g := by
   simp only [Graph.keys, List.mem_map]
   constructor
   · rintro ⟨kv, hkv, rfl⟩; exact ⟨kv.2, hkv⟩
@@ -101,12 +102,12 @@ theorem toposort_valid (pick : List Comp → List Comp) (hp : ∀ l, (pick l).Pe
     constructor
     · exact fun h => h.2
     · intro hk
-      obtain ⟨ds, hds⟩ := (mem_keys_iff g c).mp hk
+      obtain ⟨ds, hds⟩ := (c04_mem_keys_iff g c).mp hk
       exact ⟨(hs c ds hds).1, hk⟩
   refine ⟨⟨List.filter_sublist.nodup hnd, ?_, ?_⟩, hmem⟩
   · intro pre c post ho hcg d hd _
     have hk : c ∈ g.keys := by simpa using hcg
-    obtain ⟨ds, hds⟩ := (mem_keys_iff g c).mp hk
+    obtain ⟨ds, hds⟩ := (c04_mem_keys_iff g c).mp hk
     obtain ⟨hdds, hne⟩ := hg.covers c ds hds d hd
     obtain ⟨_, pre', post', ho', hdpre⟩ := (hs c ds hds).2 d hdds hne
     have hcn : c ∉ pre := by
@@ -350,5 +351,315 @@ example : Interleave [0, 1] [3] [0, 3, 1] := .left 0 (.right 3 (.left 1 .nil))
 example : getSubgraphs ⟨fun c => if c = 1 then [0] else if c = 3 then [2] else if c = 4 then [3] else [],
                         fun c => if c = 0 then [1] else if c = 2 then [3] else if c = 3 then [4] else []⟩
     (fun c => if c = 3 then 5 else 0) [0, 1, 2, 3, 4, 5] = [[4, 2, 3], [1, 0], [5]] := by decide
+
+/-! ### the incremental and pooled drivers, broker handling included (`IV/Model/Incremental.lean`) -/
+
+/-- called WITHOUT a broker, `generate_incremental` pairs every sub-graph with its OWN new broker object: one pair per
+sub-graph, in sub-graph order; the identities are pairwise different and none is an object that existed before -/
+theorem generate_fresh_distinct (subs : List (List Comp)) (next : Ref) :
+    (generateIncremental subs none next).map (·.1) = subs ∧
+    ((generateIncremental subs none next).map (·.2)).Nodup ∧
+    ∀ r ∈ (generateIncremental subs none next).map (·.2), next ≤ r := by
+  refine ⟨generate_subs subs none next, ?_, ?_⟩
+  · rw [generate_refs]; exact brokerRefs_none_nodup next _
+  · rw [generate_refs]; exact brokerRefs_none_ge next _
+
+example : generateIncremental [[4, 2, 3], [1, 0], [5]] none 7 = [([4, 2, 3], 7), ([1, 0], 8), ([5], 9)] := by decide
+
+/-- called WITH a broker, every sub-graph is paired with that one object -/
+theorem generate_passed_shared (subs : List (List Comp)) (r next : Ref) :
+    (generateIncremental subs (some r) next).map (·.1) = subs ∧
+    ∀ x ∈ (generateIncremental subs (some r) next).map (·.2), x = r := by
+  refine ⟨generate_subs subs (some r) next, ?_⟩
+  rw [generate_refs]; exact brokerRefs_some r next _
+
+example : generateIncremental [[4, 2, 3], [1, 0]] (some 2) 7 = [([4, 2, 3], 2), ([1, 0], 2)] := by decide
+
+/-- `run_incremental` / `run_all` WITHOUT a broker, serial or on a pool (`sched`: the tasks in the order the workers take
+them): the object handed back for a sub-graph holds exactly the evaluation of THAT sub-graph from an empty broker with skip
+recording off — whatever ran before, after or in between — and every object that existed before is left as it was -/
+theorem fresh_brokers_hold_own_subgraph (orderOf : List Comp → List Comp) (subs : List (List Comp)) (next : Ref) (h : Heap)
+    (hfresh : ∀ r, next ≤ r → h r = Cell.fresh) (sched : List Task)
+    (hperm : sched.Perm (generateIncremental subs none next)) :
+    (∀ t ∈ generateIncremental subs none next,
+      (runTasks w orderOf h sched t.2).broker =
+        runComponents w (fun c => t.1.contains c) false (orderOf t.1) (Broker.seeded fun _ => none)) ∧
+    (∀ r, r < next → runTasks w orderOf h sched r = h r) := by
+  obtain ⟨_, hnd, hge⟩ := generate_fresh_distinct subs next
+  have hnd' : (sched.map (·.2)).Nodup := (hperm.map (·.2)).nodup_iff.mpr hnd
+  constructor
+  · intro t ht
+    have hts : t ∈ sched := hperm.mem_iff.mpr ht
+    rw [runTasks_own w orderOf sched h hnd' t hts, runTask_self]
+    have hf := hfresh t.2 (hge t.2 (List.mem_map.mpr ⟨t, ht, rfl⟩))
+    rw [hf]
+    rfl
+  · intro r hr
+    apply runTasks_other
+    intro hm
+    exact absurd (hge r ((hperm.map (·.2)).mem_iff.mp hm)) (Nat.not_le.mpr hr)
+
+/-- LAZY CONSUMPTION of `run_incremental` without a broker: the broker yielded at step `i` is the one paired with the `i`-th
+sub-graph, it is COMPLETE at that moment (it already holds what it holds when the generator is exhausted) and every broker
+yielded later has not been touched yet -/
+theorem lazy_yield_complete (orderOf : List Comp → List Comp) (subs : List (List Comp)) (next : Ref) (h : Heap)
+    (i : Nat) (t : Task) (hi : (generateIncremental subs none next)[i]? = some t) :
+    let ts := generateIncremental subs none next
+    (runIncrementalAt w orderOf h ts i).2 = some t.2 ∧
+    (runIncrementalAt w orderOf h ts i).1 t.2 = runTasks w orderOf h ts t.2 ∧
+    ∀ j t', i < j → ts[j]? = some t' → (runIncrementalAt w orderOf h ts i).1 t'.2 = h t'.2 := by
+  intro ts
+  obtain ⟨_, hnd, _⟩ := generate_fresh_distinct subs next
+  have hsub : ((ts.take (i + 1)).map (·.2)).Sublist (ts.map (·.2)) := by
+    rw [List.map_take]; exact List.take_sublist _ _
+  have hnd' : ((ts.take (i + 1)).map (·.2)).Nodup := hsub.nodup hnd
+  have hmem : t ∈ ts := List.mem_of_getElem? hi
+  have hmemT : t ∈ ts.take (i + 1) := by
+    apply List.mem_of_getElem? (i := i)
+    rw [List.getElem?_take, if_pos (Nat.lt_succ_self i)]
+    exact hi
+  refine ⟨by simp [runIncrementalAt, ts, hi], ?_, ?_⟩
+  · show runTasks w orderOf h (ts.take (i + 1)) t.2 = _
+    rw [runTasks_own w orderOf _ h hnd' t hmemT, runTasks_own w orderOf ts h hnd t hmem]
+  · intro j t' hij hj
+    show runTasks w orderOf h (ts.take (i + 1)) t'.2 = _
+    apply runTasks_other
+    intro hm
+    -- t'.2 occurs among the first i+1 identities and at position j > i: not Nodup
+    rw [List.map_take] at hm
+    obtain ⟨k, hk, hk'⟩ := List.getElem_of_mem hm
+    have hklt : k < i + 1 := by
+      have := hk; simp only [List.length_take] at this; omega
+    have hkl : k < (ts.map (·.2)).length := by
+      have := hk; simp only [List.length_take] at this; omega
+    have e1 : (ts.map (·.2))[k]'hkl = t'.2 := by
+      rw [← hk']; simp [List.getElem_take]
+    have hjl : j < (ts.map (·.2)).length := by
+      have := (List.getElem?_eq_some_iff.mp hj).1; simpa using this
+    have e2 : (ts.map (·.2))[j]'hjl = t'.2 := by
+      obtain ⟨hjl', hje⟩ := List.getElem?_eq_some_iff.mp hj
+      simp [hje]
+    have hp := List.pairwise_iff_getElem.mp hnd k j hkl hjl (by omega)
+    exact hp (e1.trans e2.symm)
+
+-- consumed lazily: after the first yield the first broker is complete, the second still empty
+example : ((runIncrementalAt exW id (fun _ => Cell.fresh) (generateIncremental [[0, 1], [3]] none 5) 0).2,
+           ((runIncrementalAt exW id (fun _ => Cell.fresh) (generateIncremental [[0, 1], [3]] none 5) 0).1 5).broker.inst 0,
+           ((runIncrementalAt exW id (fun _ => Cell.fresh) (generateIncremental [[0, 1], [3]] none 5) 0).1 6).broker.inst 3) =
+          (some 5, some (.atom 0), none) := by decide
+
+/-- a broker that evaluated only the keys `s` reports nothing about any other component: no value, no missing-dependency
+report, no recorded failure caused by it -/
+theorem broker_reports_only_own_keys (s o : List Comp) (c : Comp) (hc : c ∉ s) :
+    let b := runComponents w (fun x => s.contains x) ss o (Broker.seeded fun _ => none)
+    b.inst c = none ∧ b.missing c = none ∧ excOf b c = [] := by
+  intro b
+  have hne : c ∉ evald (fun x => s.contains x) o := by
+    intro m
+    have := (List.mem_filter.mp m).2
+    exact hc (by simpa using this)
+  exact run_view_out w (fun x => s.contains x) ss (fun _ => none) o c hne
+
+/-- the brokers handed back for two different sub-graphs are disjoint on keys: what one reports, the other does not -/
+theorem fresh_results_disjoint (r : Rel) (prio : Comp → Nat) (G : List Comp) (hs : Symmetric r G)
+    (orderOf : List Comp → List Comp) (i j : Nat) (hij : i < j) (a b : List Comp)
+    (ha : (getSubgraphs r prio G)[i]? = some a) (hb : (getSubgraphs r prio G)[j]? = some b) (c : Comp) :
+    let ba := runComponents w (fun x => a.contains x) ss (orderOf a) (Broker.seeded fun _ => none)
+    let bb := runComponents w (fun x => b.contains x) ss (orderOf b) (Broker.seeded fun _ => none)
+    (ba.inst c = none ∧ ba.missing c = none ∧ excOf ba c = []) ∨ (bb.inst c = none ∧ bb.missing c = none ∧ excOf bb c = []) := by
+  intro ba bb
+  by_cases hca : c ∈ a
+  · right
+    exact broker_reports_only_own_keys w ss b (orderOf b) c (subgraphs_no_duplicate r prio G hs i j hij a b ha hb c hca)
+  · left
+    exact broker_reports_only_own_keys w ss a (orderOf a) c hca
+
+/-- UNION = SINGLE PASS.  Every key of the graph lies in exactly one sub-graph, and the broker of that sub-graph (evaluated
+alone from an empty broker, in any valid order) gives it exactly the value, missing-dependency report and recorded failures
+the single pass over the whole graph gives it.  Hypotheses: `get_subgraphs` walks the declared dependencies (`r.deps`),
+dependents are their inverse, and no key is told to ignore another key of the graph (ignored keys are execution contexts,
+supplied up front — there is nothing supplied here). -/
+theorem incremental_union_eq_single (r : Rel) (prio : Comp → Nat) (G : List Comp) (hs : Symmetric r G)
+    (hdeps : ∀ c, r.deps c = w.deps c) (hign : ∀ c ∈ G, ∀ x ∈ w.ignore c, x ∉ G)
+    (orderOf : List Comp → List Comp) (o : List Comp)
+    (hv : Valid w (fun x => G.contains x) (fun _ => none) o)
+    (hvs : ∀ s ∈ getSubgraphs r prio G, Valid w (fun x => s.contains x) (fun _ => none) (orderOf s))
+    (hcov : ∀ s ∈ getSubgraphs r prio G, ∀ c ∈ s, (c ∈ o ↔ c ∈ orderOf s)) :
+    (∀ k ∈ G, ∃ s ∈ getSubgraphs r prio G, k ∈ s) ∧
+    ∀ s ∈ getSubgraphs r prio G, ∀ c ∈ s,
+      let bS := runComponents w (fun x => s.contains x) ss (orderOf s) (Broker.seeded fun _ => none)
+      let bG := runComponents w (fun x => G.contains x) ss o (Broker.seeded fun _ => none)
+      bS.inst c = bG.inst c ∧ bS.missing c = bG.missing c ∧ excOf bS c = excOf bG c := by
+  obtain ⟨p1, _, p3⟩ := subgraphs_partition r prio G hs
+  refine ⟨p1, ?_⟩
+  intro s hsm c hc
+  obtain ⟨hsG, hcl⟩ := p3 s hsm
+  apply subgraph_alone_eq_single w ss (fun _ => none) (fun x => s.contains x) (fun x => G.contains x) o (orderOf s) hv (hvs s hsm)
+  · intro x hx
+    have : x ∈ s := by simpa using hx
+    simpa using hsG x this
+  · intro x hx y hy
+    have hxs : x ∈ s := by simpa using hx
+    by_cases hyG : y ∈ G
+    · left
+      simp only [World.reads, List.mem_append] at hy
+      rcases hy with hy | hy
+      · exact absurd hyG (hign x (hsG x hxs) y hy)
+      · have : y ∈ nbrs r G x := by
+          simp only [nbrs, List.mem_filter, List.mem_append, List.contains_eq_mem, decide_eq_true_eq]
+          exact ⟨Or.inl (by rw [hdeps]; exact hy), hyG⟩
+        simpa using hcl x hxs y this
+    · right; simpa using hyG
+  · intro x hx
+    exact hcov s hsm x (by simpa using hx)
+  · simpa using hc
+
+/-- all sub-graphs evaluated on ONE broker object (a broker was passed in): the object ends as one pass of the engine over
+the concatenation of the sub-graph orders with the whole graph evaluable -/
+theorem runTasks_shared (orderOf : List Comp → List Comp) (G : Comp → Bool) (r : Ref) :
+    ∀ (ts : List Task) (h : Heap), (∀ t ∈ ts, t.2 = r) →
+      (∀ t ∈ ts, ∀ c ∈ orderOf t.1, t.1.contains c = G c) →
+      runTasks w orderOf h ts r =
+        { h r with broker := runComponents w G (h r).storeSkips ((ts.map (fun t => orderOf t.1)).flatten) (h r).broker } := by
+  intro ts
+  induction ts with
+  | nil => intro h _ _; rfl
+  | cons t ts ih =>
+    intro h hall hG
+    show runTasks w orderOf (runTask w orderOf h t) ts r = _
+    rw [ih _ (fun t' ht' => hall t' (by simp [ht'])) (fun t' ht' => hG t' (by simp [ht']))]
+    have hr : t.2 = r := hall t (by simp)
+    have hself := runTask_self w orderOf h t
+    rw [hr] at hself
+    rw [hself]
+    simp only [List.map_cons, List.flatten_cons]
+    rw [run_append, run_inG_congr w (h r).storeSkips (fun c => t.1.contains c) G (orderOf t.1) (h r).broker (hG t (by simp))]
+
+
+/-- any number of sub-graphs: the concatenation of valid, pairwise independent sub-graph orders is a valid order -/
+theorem flatten_valid (seed : Inst) (os : List (List Comp))
+    (hv : ∀ o ∈ os, Valid w inG seed o)
+    (hind : os.Pairwise (fun a b => Independent w inG a b))
+    (hign : ∀ o ∈ os, ∀ c ∈ o, inG c = true → ∀ x ∈ w.ignore c, (∀ o' ∈ os, x ∉ evald inG o') ∨ present seed x = true) :
+    Valid w inG seed os.flatten := by
+  induction os with
+  | nil =>
+    refine ⟨by simp [evald], ?_, ?_⟩
+    · intro pre c post ho; simp at ho
+    · intro c hc; simp at hc
+  | cons a rest ih =>
+    rw [List.pairwise_cons] at hind
+    have hrest : Valid w inG seed rest.flatten := by
+      apply ih (fun o ho => hv o (by simp [ho])) hind.2
+      intro o ho c hc hcg x hx
+      rcases hign o (by simp [ho]) c hc hcg x hx with h | h
+      · left; intro o' ho'; exact h o' (by simp [ho'])
+      · right; exact h
+    have hi : Independent w inG a rest.flatten := by
+      refine ⟨?_, ?_, ?_⟩
+      · intro x hx hm
+        obtain ⟨b, hb, hxb⟩ := (mem_evald_flatten inG rest x).mp hm
+        exact (hind.1 b hb).disjoint x hx hxb
+      · intro c hc hcg d hd hdg hm
+        obtain ⟨b, hb, hdb⟩ := List.mem_flatten.mp hm
+        exact (hind.1 b hb).noCross₁ c hc hcg d hd hdg hdb
+      · intro c hc hcg d hd hdg
+        obtain ⟨b, hb, hcb⟩ := List.mem_flatten.mp hc
+        exact (hind.1 b hb).noCross₂ c hcb hcg d hd hdg
+    rw [List.flatten_cons]
+    apply merge_valid w inG seed a rest.flatten (a ++ rest.flatten) (hv a (by simp)) hrest hi ?_ ?_ (Interleave.append _ _)
+    · intro c hc hcg x hx
+      rcases hign a (by simp) c hc hcg x hx with h | h
+      · left; intro hm
+        obtain ⟨b, hb, hxb⟩ := (mem_evald_flatten inG rest x).mp hm
+        exact h b (by simp [hb]) hxb
+      · right; exact h
+    · intro c hc hcg x hx
+      obtain ⟨b, hb, hcb⟩ := List.mem_flatten.mp hc
+      rcases hign b (by simp [hb]) c hcb hcg x hx with h | h
+      · left; exact h a (by simp)
+      · right; exact h
+
+-- three orders, pairwise independent in exW restricted to {0,1,3}: [0,1], [3], []
+example : ([[0, 1], [3], []] : List (List Comp)).flatten = [0, 1, 3] := by decide
+
+/-- what `get_subgraphs` yields is what `merge_valid` / `flatten_valid` need: the orders of two different sub-graphs (each
+containing, of the graph's keys, only its own sub-graph's — `run_order` of the yielded dict lists the sub-graph's keys and
+their dependencies, and a dependency inside the graph is in the same sub-graph) share no evaluable item and have no
+evaluable dependency across -/
+theorem subgraph_orders_independent (r : Rel) (prio : Comp → Nat) (G : List Comp) (hs : Symmetric r G)
+    (hdeps : ∀ c, r.deps c = w.deps c) (orderOf : List Comp → List Comp)
+    (hord : ∀ s ∈ getSubgraphs r prio G, ∀ c ∈ orderOf s, c ∈ G → c ∈ s) :
+    ((getSubgraphs r prio G).map orderOf).Pairwise (fun a b => Independent w (fun x => G.contains x) a b) := by
+  obtain ⟨_, p2, p3⟩ := subgraphs_partition r prio G hs
+  rw [List.pairwise_map]
+  refine List.Pairwise.imp_of_mem ?_ p2
+  intro a b ha hb hab
+  have hin : ∀ (s : List Comp), s ∈ getSubgraphs r prio G → ∀ c ∈ orderOf s, (fun x => G.contains x) c = true → c ∈ s :=
+    fun s hsm c hc hg => hord s hsm c hc (by simpa using hg)
+  have hcl : ∀ (s : List Comp), s ∈ getSubgraphs r prio G → ∀ c ∈ s, ∀ d ∈ w.deps c, (fun x => G.contains x) d = true → d ∈ s := by
+    intro s hsm c hc d hd hg
+    apply (p3 s hsm).2 c hc d
+    simp only [nbrs, List.mem_filter, List.mem_append]
+    exact ⟨Or.inl (by rw [hdeps]; exact hd), hg⟩
+  refine ⟨?_, ?_, ?_⟩
+  · intro x hx hx'
+    have h1 := List.mem_filter.mp hx
+    have h2 := List.mem_filter.mp hx'
+    exact hab x (hin a ha x h1.1 h1.2) (hin b hb x h2.1 h2.2)
+  · intro c hc hcg d hd hdg hdb
+    exact hab d (hcl a ha c (hin a ha c hc hcg) d hd hdg) (hin b hb d hdb hdg)
+  · intro c hc hcg d hd hdg hda
+    exact hab d (hin a ha d hda hdg) (hcl b hb c (hin b hb c hc hcg) d hd hdg)
+
+-- the three sub-graphs of the `getSubgraphs` example above, each order = its own keys: pairwise independent orders exist
+example : ([[4, 2, 3], [1, 0], [5]] : List (List Comp)).Pairwise (fun a b => ∀ x ∈ a, x ∉ b) := by decide
+
+/-- A PASSED-IN BROKER ENDS EQUAL TO THE SINGLE-PASS BROKER: `run_incremental` / serial `run_all` with the caller's broker
+(seeded with `seed`, skip recording `ss`), over ANY number of sub-graphs, leave in it the same values, missing-dependency
+reports and recorded failures as `dr.run` over the whole graph in any valid order `o`.  Hypotheses: each sub-graph order is
+valid, the sub-graphs are pairwise independent (what `subgraphs_partition` gives: disjoint, closed under dependencies) and
+ignored keys are evaluated by no sub-graph or supplied up front. -/
+theorem passed_broker_eq_single (orderOf : List Comp → List Comp) (G : Comp → Bool) (r next : Ref) (subs : List (List Comp))
+    (h : Heap) (seed : Inst) (hcell : h r = ⟨Broker.seeded seed, ss⟩)
+    (hG : ∀ s ∈ subs, ∀ c ∈ orderOf s, s.contains c = G c) (o : List Comp)
+    (hv : Valid w G seed o)
+    (hvs : ∀ o' ∈ subs.map orderOf, Valid w G seed o')
+    (hind : (subs.map orderOf).Pairwise (fun a b => Independent w G a b))
+    (hign : ∀ o' ∈ subs.map orderOf, ∀ c ∈ o', G c = true → ∀ x ∈ w.ignore c,
+      (∀ o'' ∈ subs.map orderOf, x ∉ evald G o'') ∨ present seed x = true)
+    (hm : ∀ c, c ∈ evald G ((subs.map orderOf).flatten) ↔ c ∈ evald G o) :
+    let bI := (runTasks w orderOf h (generateIncremental subs (some r) next) r).broker
+    let b1 := runComponents w G ss o (Broker.seeded seed)
+    (∀ c, bI.inst c = b1.inst c) ∧ (∀ c, bI.missing c = b1.missing c) ∧ (∀ c, excOf bI c = excOf b1 c) := by
+  intro bI b1
+  have hvf := flatten_valid w G seed (subs.map orderOf) hvs hind hign
+  obtain ⟨g1, g2⟩ := generate_passed_shared subs r next
+  have hflat : (generateIncremental subs (some r) next).map (fun t => orderOf t.1) = subs.map orderOf := by
+    have := congrArg (List.map orderOf) g1
+    rw [List.map_map] at this
+    exact this
+  have hb : bI = runComponents w G ss ((subs.map orderOf).flatten) (Broker.seeded seed) := by
+    show (runTasks w orderOf h _ r).broker = _
+    rw [runTasks_shared w orderOf G r _ h (fun t ht => g2 t.2 (List.mem_map.mpr ⟨t, ht, rfl⟩))
+        (fun t ht => hG t.1 (by rw [← g1]; exact List.mem_map.mpr ⟨t, ht, rfl⟩))]
+    rw [hflat, hcell]
+  rw [hb]
+  exact order_independent w G ss seed _ o hvf hv hm
+
+-- union = single pass on exW: the sub-graph {0,1} evaluated alone gives 1 (a content error) and 0 what the pass over {0,1,3} gives them
+example : let bS := runComponents exW (fun x => [0, 1].contains x) true [0, 1] (Broker.seeded fun _ => none)
+          let bG := runComponents exW (fun x => [0, 1, 3].contains x) true [3, 0, 1] (Broker.seeded fun _ => none)
+          (bS.inst 0, bS.inst 1, excOf bS 1) = (bG.inst 0, bG.inst 1, excOf bG 1) ∧ bS.inst 3 = none ∧ bG.inst 3 ≠ none := by decide
+-- two sub-graphs {0,1} and {3} of exW evaluated on fresh brokers: each reports its own keys only
+example : ((runTasks exW id (fun _ => Cell.fresh) (generateIncremental [[0, 1], [3]] none 5) 5).broker.inst 3,
+           (runTasks exW id (fun _ => Cell.fresh) (generateIncremental [[0, 1], [3]] none 5) 6).broker.inst 3,
+           (runTasks exW id (fun _ => Cell.fresh) (generateIncremental [[0, 1], [3]] none 5) 6).broker.inst 0) =
+          (none, some (.atom 3), none) := by decide
+-- the same on one passed-in broker: everything in that one object
+example : ((runTasks exW id (fun _ => Cell.fresh) (generateIncremental [[0, 1], [3]] (some 2) 5) 2).broker.inst 3,
+           (runTasks exW id (fun _ => Cell.fresh) (generateIncremental [[0, 1], [3]] (some 2) 5) 2).broker.inst 0,
+           (runTasks exW id (fun _ => Cell.fresh) (generateIncremental [[0, 1], [3]] (some 2) 5) 5).broker.inst 0) =
+          (some (.atom 3), some (.atom 0), none) := by decide
 
 end IV.Dr
